@@ -626,8 +626,8 @@ func exhaustiveC17(thorough bool, emit func(C17Case) bool) {
 		gap := append(bytes.Clone(arm), bytes.Repeat([]byte("N"), 1000000)...)
 		unit := realDNA(5000, 22, false, false)
 		rep := append(bytes.Repeat(unit, 200), realDNA(320000, 23, false, false)...)
-		// (and 1.1 Mb of sequence without repeats: the sketch holds less than 1/256 of the k-mers)
-		for _, sq := range [][]byte{gap, rep, realDNA(1100000, 24, false, true)} {
+		// (and 2.3 Mb of sequence: the sketch holds less than 1/256 of the k-mers)
+		for _, sq := range [][]byte{gap, rep, realDNA(2300000, 24, false, true)} {
 			if !emit(C17Case{Kind: "sketch", Seqs: []gen.B{sq}, K: 21, N: 4096, RC: []bool{false}, Partition: []int{1}, N2: 1500}) {
 				return
 			}
